@@ -32,7 +32,7 @@ func init() {
 		Cases: func(tier string) int {
 			switch tier {
 			case "thorough":
-				return 2400
+				return 4800
 			}
 			return 240
 		},
